@@ -232,6 +232,12 @@ Fixpoint collect (l : list (result (list string))) : result (list string) :=
   | Ok a :: r => match collect r with Ok b => Ok (a ++ b) | Raise e => Raise e end
   end.
 
+Definition extend_shortcut (x : extend_d) (N : nat) : bool :=
+  is_none (x_add x) &&
+  match x_entries x with
+  | [e] => is_none (x_mapping e) && (N =? length (qubit_list (x_qubits e)))
+  | _ => false
+  end.
 Definition validate_extend (x : extend_d) : verdict :=
   let es := x_entries x in
   check (negb (length es =? 0)) ValueError ;;
@@ -248,6 +254,8 @@ Definition validate_extend (x : extend_d) : verdict :=
   let last := fold_right Nat.max 0 active in
   check (match x_N x with None => true | Some n => last + 1 <=? n end) ValueError ;;
   let N := match x_N x with None => last + 1 | Some n => n end in
+  (* a single pulse mapped to its own qubits (nothing to add, nothing to rename) is returned as it is *)
+  if extend_shortcut x N then ok else
   check (match x_cache_ff x with
          | Some true => x_omega_given x || all_equal_nonempty (optnat_tags (map (fun e => p_omega (x_pulse e)) es))
                         && forallb (fun e => negb (is_none (p_omega (x_pulse e)))) es
